@@ -160,6 +160,15 @@ def run_shard(spec, tier, seed):
                         res.add('gates_read_affirmative', f'{year}|{g}')
                         if witness:
                             res.add('witness_reached', f'{year}|{g}')
+                        if nflip == 1 and not witness:
+                            # the same declaration when the return is asked for first and another form afterwards, on the same Solver:
+                            # what the first call found out is not forgotten by the second
+                            more = ['1040_s1'] if '1040_s1' not in p.forms() else ['1040_sb']
+                            q3 = scen.Persona(p.year, p.family, p.key, overrides=ov)
+                            out3, tv3, t3 = realwork.traced(q3, then_request=more)
+                            res.evaluations += 1
+                            res.count('directed_flips_two_calls')
+                            oracle(res, year, gates, out3, tv3, f'{year} {p.family} {p.key} flip {key}, then {more[0]} requested in a second call', realwork.replay_of(q3, f'flip:{key}:two-calls', spec), drive)
                     else:
                         res.count('flips_where_gate_was_not_reached')
             if nflip == 0:
@@ -175,6 +184,9 @@ def run_shard(spec, tier, seed):
         for status in ('S', 'MFJ', 'HOH', 'QSS', 'MFS'):
             lim = st.amount('form_1116_ceiling', year, status)
             cases.append((f'foreign-tax-over-1116-ceiling|{status}', 'F2', status, {'1099-int:0.box_6': f'{lim + 1:.2f}'}, {'1040.number_1099-int': '1'}, '1099-int:0.box_6'))
+            # by a cent, and by less than half a dollar (the amounts are compared in cents, not in rounded dollars)
+            cases.append((f'foreign-tax-a-cent-over-1116-ceiling|{status}', 'F2', status, {'1099-int:0.box_6': f'{lim + 0.01:.2f}', '1099-div:0.box_7': '0'}, {'1040.number_1099-int': '1'}, '1099-int:0.box_6'))
+            cases.append((f'foreign-tax-49-cents-over-1116-ceiling|{status}', 'F2', status, {'1099-int:0.box_6': f'{lim + 0.49:.2f}', '1099-div:0.box_7': '0'}, {'1040.number_1099-int': '1'}, '1099-int:0.box_6'))
         # more payers than Schedule B has rows
         many_int = {'1040.number_1099-int': '15'}
         many_div = {'1040.number_1099-div': '15'}
